@@ -13,7 +13,9 @@ if [ "${EVAL_IN_PLACE:-0}" = 1 ]; then REPO=/repo; ROOT=/verif; else
   cp /verif/known_findings.json $ROOT/known_findings.json; cp /verif/check $ROOT/check
 fi
 if [ -n "$(git -C $REPO status --porcelain)" ]; then echo "$ID: $REPO not clean, refusing"; exit 3; fi
-if git -C $REPO apply --check $D/patch.diff 2>/dev/null; then git -C $REPO apply $D/patch.diff; HOW=apply
+# patch_rebased.diff = the same change ported by hand onto the repaired tree where the original no longer applies
+if [ -f $D/patch_rebased.diff ] && git -C $REPO apply --check $D/patch_rebased.diff 2>/dev/null; then git -C $REPO apply $D/patch_rebased.diff; HOW=rebased
+elif git -C $REPO apply --check $D/patch.diff 2>/dev/null; then git -C $REPO apply $D/patch.diff; HOW=apply
 elif git -C $REPO apply --3way $D/patch.diff >/dev/null 2>&1; then HOW=3way; git -C $REPO reset -q
 else git -C $REPO reset -q --hard; git -C $REPO clean -fdq
   echo "$ID: patch does not apply to $(git -C $REPO log -1 --format=%h)"
